@@ -1,5 +1,5 @@
 From Coq Require Import List String.
-From Verif Require Import Base Dispatch DispatchHooks.
+From Verif Require Import Base Dispatch DispatchHooks DispatchAllowlist.
 Import ListNotations.
 Open Scope string_scope.
 
@@ -11,7 +11,11 @@ Definition handle (s : sexp) : string :=
       | None =>
       match handle_hooks cmd args with
       | Some r => r
+      | None =>
+      match handle_allow cmd args with
+      | Some r => r
       | None => "!unknown-or-malformed " ++ cmd
+      end
       end
       end
   | _ => "!malformed"
